@@ -129,6 +129,10 @@ for _tier, _n in (("quick", 8), ("thorough", 160)):
                           "concurrent:rendezvous_met": int(0.4 * _n), "concurrent:project_grid_plain_rounds": int(0.5 * _n),
                           "concurrent:project_grid_shared_inputs_rounds": int(0.5 * _n), "concurrent:convexhull_mask_rounds": int(0.5 * _n),
                           "concurrent:plain_rounds_with_yield_injection": int(0.2 * _n), "yields_injected": 20 * _n})
+for _tier, _n in (("quick", 350), ("thorough", 7000)):
+    FLOORS[_tier].update({"eval:pg_defaults_equal_explicit": int(0.4 * _n / 2), "defaults:project_grid_without_method_and_antialias": int(0.4 * _n / 6),
+                          "defaulted_argument:project_grid.method": int(0.4 * _n / 3), "defaulted_argument:project_grid.antialias": int(0.4 * _n / 3),
+                          "defaulted_argument:convexhull_mask.projection": 1000 if _tier == "quick" else 20000})
 for _tier, _n in (("quick", 36), ("thorough", 720)):
     FLOORS[_tier].update({"eval:byteorder_invariance": int(0.4 * 9 * _n), "byteorder:grid_index_coordinate_stays_non_native": int(0.4 * _n)})
     FLOORS[_tier].update({"byteorder:dtype_" + d: int(0.12 * _n) for d in BYTE_ORDER_DTYPES_})
@@ -656,8 +660,10 @@ def install(tap, run):
             run.mark_nontrivial("pg", vals, np.asarray(grid.coords[dims[0]].values), np.asarray(grid.coords[dims[1]].values), label,
                                 getattr(projection, "params", None), method_name, bool(antialias), sorted(kwargs.items(), key=str))
 
-    tap.function(vmask, "convexhull_mask", post=post_mask)
-    tap.function(vproj, "project_grid", post=post_project)
+    # documented defaults (docstrings of the tree as pinned): a caller that leaves them out is judged against these, not against
+    # whatever the signature under test supplies
+    tap.function(vmask, "convexhull_mask", post=post_mask, documented={"coordinates": None, "grid": None, "projection": None})
+    tap.function(vproj, "project_grid", post=post_project, documented={"method": "linear", "antialias": True})
 
 
 # ----------------------------------------------------------------------
@@ -1122,7 +1128,24 @@ def run_case(run, tap, stream, index, rng):  # noqa: U100
         try:
             with warnings.catch_warnings():
                 warnings.simplefilter("ignore")
-                verde.project_grid(grid, projection, method=method, antialias=antialias, **kwargs)
+                if stream == "pg_general" and index % 6 == 0:
+                    # calls that rely on the documented defaults (method="linear", antialias=True): judged with those by the monitor and
+                    # required to equal the call that spells them out
+                    relying = verde.project_grid(grid, projection, **kwargs)
+                    spelled = verde.project_grid(grid, projection, method="linear", antialias=True, **kwargs)
+                    only_method = verde.project_grid(grid, projection, method="linear", **kwargs)
+                    only_antialias = verde.project_grid(grid, projection, antialias=True, **kwargs)
+                    run.count("defaults:project_grid_without_method_and_antialias")
+                    for label, other in (("no arguments", relying), ("method only", only_method), ("antialias only", only_antialias)):
+                        run.evaluated("pg_defaults_equal_explicit")
+                        a_, b_ = np.asarray(other.values), np.asarray(spelled.values)
+                        if not (other.name == spelled.name and a_.shape == b_.shape and bool(np.all((a_ == b_) | (np.isnan(a_) & np.isnan(b_))))):
+                            run.violation("pg_defaults_equal_explicit", "project_grid called with %s differs from project_grid(method='linear', antialias=True): "
+                                          "a documented default is not in effect" % label,
+                                          {"given": label, "grid": grid, "projection": repr(projection), "kwargs": {k: v for k, v in kwargs.items()},
+                                           "result": a_, "result_explicit": b_}, key="pg:defaults:" + label)
+                else:
+                    verde.project_grid(grid, projection, method=method, antialias=antialias, **kwargs)
         except _STATE["QhullError"]:
             run.count("refused:project_grid_qhull (counted, not failed)")
         except IndexError:
